@@ -8,6 +8,7 @@ package main
 import (
 	"context"
 	"crypto/tls"
+	"encoding/base64"
 	"encoding/json"
 	"errors"
 	"fmt"
@@ -26,6 +27,7 @@ import (
 	"github.com/smallstep/certificates/authority"
 	"verif/harness/cmd/c12/acmeenv"
 	c "verif/harness/common"
+	"verif/harness/fixture"
 )
 
 // valClient answers the http-01 fetch with the registered key authorization.
@@ -90,30 +92,72 @@ func runACME(k *Case) result {
 			mux.ServeHTTP(w, r.WithContext(mergedCtx{r.Context(), base}))
 		})}
 
-	const name = "acme.verif.test"
+	names := []string{"acme.verif.test"}
+	if strings.HasPrefix(k.Var, "ids2") {
+		names = append(names, "second.verif.test")
+	}
 	acct, err := env.NewAccount("acme", acmeenv.NewKey("es256", 0))
 	if err != nil {
 		return fail("account", err)
 	}
-	is, err := env.NewOrder(acct, name)
-	if err != nil {
-		return fail("order", err)
+	// new-order for all names, then every authorization's http-01 challenge is validated
+	var idl []map[string]string
+	for _, n := range names {
+		idl = append(idl, map[string]string{"type": "dns", "value": n})
 	}
-	vc.mu.Lock()
-	vc.m["/.well-known/acme-challenge/"+is.Token] = is.Token + "." + acct.Key.Thumb()
-	vc.mu.Unlock()
-	if rec := env.Post(acct, acmeenv.Path("acme", "challenge", is.AuthzID, is.ChID), []byte("{}")); rec.Code != 200 {
-		return fail("challenge", fmt.Errorf("%d %s", rec.Code, rec.Body.String()))
+	pl, _ := json.Marshal(map[string]any{"identifiers": idl})
+	rec0 := env.Post(acct, acmeenv.Path("acme", "new-order"), pl)
+	if rec0.Code != 201 {
+		return fail("new-order", fmt.Errorf("%d %s", rec0.Code, rec0.Body.String()))
 	}
-	if rec := env.Post(acct, acmeenv.Path("acme", "order", is.OrderID), nil); rec.Code != 200 {
-		return fail("order poll", fmt.Errorf("%d %s", rec.Code, rec.Body.String()))
+	orderID := acmeenv.LastPathElem(rec0.Header().Get("Location"))
+	var no struct {
+		Authorizations []string `json:"authorizations"`
 	}
-	csrName := name
+	json.Unmarshal(rec0.Body.Bytes(), &no)
+	if len(no.Authorizations) != len(names) {
+		return fail("new-order", fmt.Errorf("%d authorizations", len(no.Authorizations)))
+	}
+	for _, au := range no.Authorizations {
+		azID := acmeenv.LastPathElem(au)
+		ra := env.Post(acct, acmeenv.Path("acme", "authz", azID), nil)
+		var az struct {
+			Challenges []struct{ Type, URL, Token string } `json:"challenges"`
+		}
+		json.Unmarshal(ra.Body.Bytes(), &az)
+		done := false
+		for _, ch := range az.Challenges {
+			if ch.Type != "http-01" {
+				continue
+			}
+			vc.mu.Lock()
+			vc.m["/.well-known/acme-challenge/"+ch.Token] = ch.Token + "." + acct.Key.Thumb()
+			vc.mu.Unlock()
+			if rc := env.Post(acct, acmeenv.Path("acme", "challenge", azID, acmeenv.LastPathElem(ch.URL)), []byte("{}")); rc.Code != 200 {
+				return fail("challenge", fmt.Errorf("%d %s", rc.Code, rc.Body.String()))
+			}
+			done = true
+		}
+		if !done {
+			return fail("authz", fmt.Errorf("no http-01 challenge in %s", ra.Body.String()))
+		}
+	}
+	if !strings.HasSuffix(k.Var, "pending") { // the client polls the order: it becomes ready in the database
+		if rec := env.Post(acct, acmeenv.Path("acme", "order", orderID), nil); rec.Code != 200 {
+			return fail("order poll", fmt.Errorf("%d %s", rec.Code, rec.Body.String()))
+		}
+	}
+	csrNames := names
 	if k.Chk >= 0 { // CSR names differ from the order's identifiers
-		csrName = "other.verif.test"
+		csrNames = []string{"other.verif.test"}
 	}
-	path := acmeenv.Path("acme", "order", is.OrderID, "finalize")
-	body := env.KidBody(acct, "acme", path, acmeenv.CSRPayload(csrName)) // fetches its nonce before the recording starts
+	csr, _, err := fixture.CSR(csrNames[0], csrNames)
+	if err != nil {
+		return fail("csr", err)
+	}
+	cpl, _ := json.Marshal(map[string]string{"csr": base64.RawURLEncoding.EncodeToString(csr.Raw)})
+	path := acmeenv.Path("acme", "order", orderID, "finalize")
+	body := env.KidBody(acct, "acme", path, cpl) // fetches its nonce before the recording starts
 
 	count := func() map[string]int {
 		m := e.snapshot()
@@ -145,7 +189,7 @@ func runACME(k *Case) result {
 	} else if rec.Code == 200 {
 		cl = "ok" // a success response that does not hand out a certificate
 	}
-	if o2, err := adb.GetOrder(context.Background(), is.OrderID); err == nil && o2.Status == acme.StatusValid && o2.CertificateID != "" {
+	if o2, err := adb.GetOrder(context.Background(), orderID); err == nil && o2.Status == acme.StatusValid && o2.CertificateID != "" {
 		valid = 1
 	}
 	if os.Getenv("VERIF_DEBUG") != "" {
